@@ -388,6 +388,19 @@ class EventDispatcher(object):
         """
         try:
             item = json.loads(message.body.decode("utf8"))
+        except ValueError as e:
+            self.logger.error(
+                "Message {} does not contain valid JSON".format(message.body)
+            )
+            message.acknowledge(multiple=False)
+            return
+
+        """
+        (Only the decoding above is guarded against ValueError: a ValueError
+        raised while the event is being handled, e.g. for a timestamp in it
+        that cannot be parsed, is a "poison" message like any other exception.)
+        """
+        try:
             # TODO delete - original approach using one up number
             #self.unacknowledged_messages[self.message_count] = message
             #self.state_engine.notify(item, self.message_count, message.redelivered)
@@ -408,11 +421,6 @@ class EventDispatcher(object):
             self.unacknowledged_messages[message_id] = message
             self.state_engine.notify(item, message_id, message.redelivered)
             self.state_engine.task_dispatcher.schedule_orphaned_response_handler()
-        except ValueError as e:
-            self.logger.error(
-                "Message {} does not contain valid JSON".format(message.body)
-            )
-            message.acknowledge(multiple=False)
         except Exception as e:
             """
             If state_engine.notify bombs out with an exception it is likely to
